@@ -166,7 +166,7 @@ def run(ctx):
     o.check(bad is None, "writers table", "unexpected writer " + (bad[0] if bad else ""), site=bad[1] if bad else None, construct="semaphore counter writer")
     g = P.fn("fiber_semaphore_getvalue")
     o = ctx.ob("getvalue", g, "getvalue only reads the counter", "")
-    o.check(not g.stores() and not g.calls(), "pure read", "getvalue has side effects", site=g.loc, construct="getvalue side effect")
+    o.check(not g.stores() and not [c for c in g.calls() if c.callee != "__assert_fail"], "pure read", "getvalue has side effects", site=g.loc, construct="getvalue side effect")
     wq = P.fn("fiber_manager_wake_from_mpmc_queue")
     o = ctx.ob("post.waker", wq, "the mpmc waker with count 0 makes one attempt and reports how many it woke; with count > 0 it retries until done; "
                "it marks the fiber READY before scheduling it", "post relies on the return value to decide whether to retry")
